@@ -28,6 +28,7 @@ theorem alpha_e (hν : Adm ν) (n : Nat) (ih : AlphaAt ν n) (ctx : Ctx) (env : 
   cases e with
   | lit l => simp only [rnE, evalE]
   | var x => simp only [rnE, evalE, lookup_rn hν]
+  | dimVar x => simp only [rnE, evalE, lookup_rn hν]
   | un op a => simp only [rnE, evalE, ih.e]
   | bin op a b => simp only [rnE, evalE, ih.e]
   | and a b => simp only [rnE, evalE, ih.e]
